@@ -1712,3 +1712,49 @@ func isGlobalNamed(v ssa.Value, pkg, name string) bool {
 	}
 	return false
 }
+
+// ---------- C18-R11: configuration values are copied field for field ----------
+func init() { registerExtra("C18", extraC18ConfigCopy) }
+
+func extraC18ConfigCopy(c *Ctx, r *Report) {
+	r.Rule("C18-R11", "where an engine configuration is filled from the generic proxy configuration, each timeout field is assigned from the getter of the same name (ReadTimeout ← GetReadTimeout(), ResponseTimeout ← GetResponseTimeout(), ConnectionTimeout ← GetConnectionTimeout()): a read timeout wired from another setting cuts off backends that merely pause, or lets stalled ones hang", 6)
+	for _, f := range c.Funcs {
+		if !c.inRepo(f) || !strings.Contains(fnPkgPath(f), "/adapter/proxy") {
+			continue
+		}
+		eachInstr(f, func(in ssa.Instruction) {
+			st, ok := in.(*ssa.Store)
+			if !ok {
+				return
+			}
+			owner, fld, ok := fieldOf(st.Addr)
+			if !ok || !strings.HasSuffix(fld.Name(), "Timeout") {
+				return
+			}
+			if nt, isN := types.Unalias(deref(owner)).(*types.Named); !isN || nt.Obj().Pkg() == nil || !strings.HasPrefix(nt.Obj().Pkg().Path(), modPath) {
+				return // net.Dialer.Timeout, http.Client.Timeout …: not a configuration copy
+			}
+			call, ok := st.Val.(*ssa.Call)
+			if !ok {
+				return
+			}
+			name := ""
+			if call.Call.IsInvoke() {
+				name = call.Call.Method.Name()
+			} else if sc := call.Call.StaticCallee(); sc != nil {
+				name = sc.Name()
+			}
+			if !strings.HasPrefix(name, "Get") || !strings.HasSuffix(name, "Timeout") {
+				return
+			}
+			key := fmt.Sprintf("%s:%s←%s", fname(f), fld.Name(), name)
+			if name[3:] == fld.Name() {
+				r.OK("C18-R11", key, in.Pos(), "field and getter agree")
+			} else {
+				r.Bad("C18-R11", key, in.Pos(), "the engine's "+fld.Name()+" is filled from "+name+"(): the stall cut-off (or the time allowed for a response) follows a different setting than the one the operator configured for it")
+			}
+		})
+	}
+	addMutants(Mutant{Prop: "C18", Name: "read-timeout-from-connection-timeout", File: "internal/adapter/proxy/factory.go", Rule: "C18-R11",
+		Old: "		sherpaConfig.ReadTimeout = config.GetReadTimeout()", New: "		sherpaConfig.ReadTimeout = config.GetConnectionTimeout()"})
+}
